@@ -20,9 +20,12 @@ import c08_gen as gen
 import c08_validate as val
 
 THEOREMS = ['C08_volume_str_counts', 'C08_write_wf', 'C08_prune_preserves_wf',
-            'C08_prune_total', 'C08_convert_tail_wf',
+            'C08_prune_total', 'C08_convert_tail_wf', 'C08_convert_tail_wf_R',
+            'C08_print_parse_roundtrip', 'C08_written_text_wf',
+            'C08_convert_tail_text_wf_R',
+            'C08_numbers_given', 'C08_numbers_finite', 'C08_words_okb_sound',
             'C08_remove_empty_volumes_ok', 'C08_geomcomp_partition',
-            'C08_bc_defined', 'C08_print_parse_roundtrip_partial',
+            'C08_bc_defined',
             'C08_composition_missing_refuted', 'C08_wf_fileb_ok',
             'C08_wf_stateb_sound', 'C08_stage0_okb_sound']
 TRUSTED = [
@@ -169,6 +172,52 @@ m1 1001 1.0
 
 m1 1001 1.0
 ''', []),
+    'bc_conflicting_kinds': ('''coincident surfaces with different flags: ValueError after a complete file
+1 1 -1.0 -1 2 imp:n=1
+2 0 1 : -3 imp:n=0
+
+1 so 2
+*2 px 0
++3 px 0
+
+m1 1001 1.0
+''', []),
+    'duplicate_tilted_tori': ('''two equal tori under the same rotation (SurfaceT4.__eq__ with transforms)
+1 1 -1.0 -1 : -2 imp:n=1
+2 0 1 2 -3 imp:n=1
+3 0 3 imp:n=0
+
+1 1 tz 0 0 0 3 1 1
+2 1 tz 0 0 0 3 1 1
+3 so 20
+
+tr1 0 0 0 1 0 0 0 0.8660254037844387 0.5 0 -0.5 0.8660254037844387
+m1 1001 1.0
+''', []),
+    'union_of_volumes_emptied_by_dedup': ('''every operand of a UNION is removed (ops = None)
+1 1 -1.0 (-1 2) : (-2 1) imp:n=1
+2 0 -3 imp:n=1
+3 0 3 imp:n=0
+
+1 so 2
+2 so 2
+3 so 5
+
+m1 1001 1.0
+''', []),
+    'atom_density_compositions': ('''positive densities: POINT_WISE with atom fractions, and with mass fractions (empty block)
+1 1 0.05 -1 imp:n=1
+2 2 4.8e-2 1 -2 imp:n=1
+3 1 0.05 2 -3 imp:n=1
+4 0 3 imp:n=0
+
+1 so 1
+2 so 2
+3 so 3
+
+m1 8016 1 1001 2
+m2 26000 -0.7 6012 -0.3
+''', []),
     'bc_on_merged_duplicate': ('''flag carried by a surface merged into its duplicate
 1 1 -1.0 -1 2 imp:n=1
 2 0 1 : -3 imp:n=0
@@ -251,7 +300,45 @@ def sweep_one(res, deck_text, args, conv, cap, origin):
     return not problems
 
 
+def make_case(conv, cap, args, verdict):
+    '''(Coq term of one tie case, open-finding flag) or None.'''
+    if cap is None or cap.mats is None:
+        return None
+    term = cap_mod.coq_input(cap, args)
+    obs = cap_mod.coq_observed(cap_mod.observed(conv))
+    valid = cap_mod.cbool(verdict is True or conv.text is None)
+    card_keys = {k for k, _, _ in cap.mats}
+    open_flag = any((c[2] not in card_keys and c[2] != 0) or c[7] < 0
+                    for c in cap.cells) \
+        or any(v != v or v in (float('inf'), float('-inf'))
+               for surf in cap.surfs for v in surf[2])
+    return f'({term},\n {obs}, {valid})', open_flag
+
+
 def run(res, tier, seed, proofs_ok):
+    '''Sweep and ties; the corpus decks run under a line-coverage
+    tracer restricted to the anchored functions (every reachable line must be
+    executed).'''
+    import c08_cov
+    cov = c08_cov.LineCov(c08_cov.anchored_functions())
+    _run(res, tier, seed, proofs_ok, cov)
+    total, missing = cov.missing(c08_cov.UNREACHABLE)
+    res.extra['anchored_lines'] = total
+    res.obligation('coverage: the corpus decks (WITNESSES) alone '
+                   f'execute every reachable line of the {len(cov.codes)} '
+                   f'anchored code objects ({total} lines)', not missing,
+                   f'never executed: {missing[:6]}')
+    if missing:
+        res.violation('harness-error',
+                      'generated inputs no longer reach these lines of the '
+                      'anchored code (strengthen the generators): '
+                      f'{missing[:8]}',
+                      {'theorem_or_correspondence': 'coverage',
+                       'input': {'lines': [list(m) for m in missing[:20]]}},
+                      found_input=False)
+
+
+def _run(res, tier, seed, proofs_ok, cov):
     rng = random.Random(seed)
     for text, ints in cap_mod.PACK_SAMPLES.items():
         if cap_mod.pack(text) != ints:
@@ -269,16 +356,21 @@ def run(res, tier, seed, proofs_ok):
                 'file was written; distinct by (deck text, options)')
 
     # ---- 1. witnesses of the open findings and corpus of the repaired ones ----
+    cases, meta = [], []
     for cls, (deck_text, args) in WITNESSES.items():
-        conv, cap = cap_mod.convert(deck_text, args)
+        with cov:
+            conv, cap = cap_mod.convert(deck_text, args)
         verdict = sweep_one(res, deck_text, args, conv, cap,
                             f'witness:{cls}')
         res.count(f'witness:{cls}:' + ('still-fails' if verdict is False
                                        else 'passes'))
+        made = make_case(conv, cap, args, verdict)
+        if made:
+            cases.append(made[0])
+            meta.append((deck_text, args, conv.exc, verdict, made[1]))
 
     # ---- 2 + 3. generated decks: sweep and tie on the same runs ----
-    n_decks = 170 if tier == 'quick' else 1500
-    cases, meta = [], []
+    n_decks = 170 if tier == 'quick' else 1200
     for i in range(n_decks):
         dk, tags = gen.gen_deck(rng)
         deck_text = gen.render(dk)
@@ -302,25 +394,22 @@ def run(res, tier, seed, proofs_ok):
             verdict = sweep_one(res, deck_text, args, conv, cap, 'generated')
             if verdict is not None:
                 res.count('file:' + ('valid' if verdict else 'invalid'))
-            if cap is None or cap.mats is None:
-                continue
             try:
-                term = cap_mod.coq_input(cap, args)
-                obs = cap_mod.coq_observed(cap_mod.observed(conv))
+                made = make_case(conv, cap, args, verdict)
             except (ValueError, KeyError) as exc:
                 res.count('tie-skipped:' + type(exc).__name__)
                 continue
-            valid = cap_mod.cbool(verdict is True or conv.text is None)
-            cases.append(f'({term},\n {obs}, {valid})')
-            card_keys = {k for k, _, _ in cap.mats}
-            open_cells = any((c[2] not in card_keys and c[2] != 0) or c[7] < 0
-                             for c in cap.cells)
-            meta.append((deck_text, args, conv.exc, verdict, open_cells))
+            if not made:
+                continue
+            cases.append(made[0])
+            meta.append((deck_text, args, conv.exc, verdict, made[1]))
             if len(res.samples) < 3 and conv.text is not None and i % 7 == 0:
                 res.sample({'deck': deck_text, 'args': args,
                             'file_bytes': len(conv.text)})
     bad, errs = run_multi('c08_tie', ['check_file', 'check_verdict',
-                                      'outside_guard', 'stage0_ok'], cases)
+                                      'outside_guard', 'stage0_ok', 'check_reader',
+                           'text_ok'],
+                          cases)
     n_in = len(bad['outside_guard']) if not errs else 0   # indices where outside_guard = false
     res.extra['guard'] = {'cases': len(cases),
                           'inside_wf_state (hypotheses of C08_write_wf hold '
@@ -354,6 +443,38 @@ def run(res, tier, seed, proofs_ok):
                       f'{" ".join(args) or "default"}]',
                       {'input': {'deck': deck_text, 'args': args},
                        'theorem_or_correspondence': 'tie:stage0'},
+                      found_input=False)
+    res.obligation(f'tie:text ({len(cases)} snapshots: words_ok (hypothesis of '
+                   'C08_written_text_wf) and finiteb on every numeric string of '
+                   'the tables (hypothesis of C08_numbers_finite) hold)',
+                   not [i for i in bad['text_ok'] if not meta[i][4]]
+                   and not errs,
+                   f'{len(bad["text_ok"])} snapshots outside (open findings '
+                   'included)')
+    for idx in [i for i in bad['text_ok'] if not meta[i][4]][:10]:
+        deck_text, args, exc, verdict, _open = meta[idx]
+        res.violation('correspondence',
+                      'the tables construct_volume_t4 returned contain a string '
+                      'that is not a word, or a numeric string that is not a '
+                      f'finite number [options {" ".join(args) or "default"}]',
+                      {'input': {'deck': deck_text, 'args': args},
+                       'theorem_or_correspondence': 'tie:text'},
+                      found_input=False)
+    res.obligation(f'tie:reader ({len(cases)} runs: the Coq reader parse_t4 on the '
+                   'bytes of the real file accepts exactly the files the '
+                   'validator accepts, print_t4 of what it read gives the same '
+                   'bytes, wf_fileb and finiteb of every numeric field of what it '
+                   'read = validator verdict)',
+                   not bad['check_reader'] and not errs,
+                   f'{len(bad["check_reader"])} disagreements')
+    for idx in bad['check_reader'][:10]:
+        deck_text, args, exc, verdict, _open = meta[idx]
+        res.violation('correspondence',
+                      'the Coq reader and the validator disagree on the bytes '
+                      f'of the written file (validator valid={verdict}) '
+                      f'[options {" ".join(args) or "default"}]',
+                      {'input': {'deck': deck_text, 'args': args},
+                       'theorem_or_correspondence': 'tie:reader'},
                       found_input=False)
     if errs:
         res.violation('correspondence',
